@@ -117,6 +117,10 @@ def x_history(ctx, case):
             if run.get("clear_junk"):
                 spinner.clear_junk()
                 junk_pending = False
+            if run.get("handlers"):
+                # the application installed other handlers since the previous run
+                signal.signal(signal.SIGINT, HANDLERS[run["handlers"]])
+                signal.signal(signal.SIGTERM, HANDLERS[run["handlers"]])
             if run.get("pre_patch_stop"):
                 marker = []
                 reactor.stop = lambda: marker.append(1)  # a caller-installed replacement
@@ -341,7 +345,8 @@ def run(ctx):
                 if not ctx.mine():
                     continue
                 n += 1
-                ctx.execute("history", {"runs": [dict(a), dict(b, clear_junk=clear), dict(b, clear_junk=True)]},
+                ctx.execute("history", {"runs": [dict(a), dict(b, clear_junk=clear, handlers="py"),
+                                                 dict(b, clear_junk=True, handlers="ign")]},
                             sample=(n % 97 == 0))
     ctx.note_space("two/three runs on one Spinner: every 5th grid run followed by 3 second runs x clear_junk on/off", n)
     ctx.notes["random_cases"] = True
@@ -355,6 +360,8 @@ def run(ctx):
             r.update(rng.choice(variants))
             if rng.random() < 0.7:
                 r["clear_junk"] = True
+            if rng.random() < 0.4:
+                r["handlers"] = rng.choice(list(HANDLERS))
             runs.append(r)
         ctx.execute("history", {"runs": runs, "handlers": rng.choice(list(HANDLERS))})
     if ctx.shard == 0:
